@@ -1,0 +1,60 @@
+//go:build verif
+
+package auth
+
+// Contracts checked by /verif (govc). Comment-only file; not part of normal builds.
+
+// ---- C11: credentials travel only to the host they belong to ----
+// The flow of a secret, link by link:
+//  (1) a handler asks the credential function for the credentials of ITS OWN host only;
+//  (2) a handler is built for the host whose response carried the challenge, with the Auth's
+//      credential function, and UpdateRequest takes the Authorization value from the handler
+//      registered for the request's URL host;
+//  (3) the credential function supplied by reghttp answers for its own registry host only
+//      (contract in internal/reghttp).
+//@ callsite field:credsFn(h)
+//@   prop C11
+//@   name credsFn/basic
+//@   in ~/internal/auth
+//@   infunc basicHandler\)\.
+//@   requires own-host-only: h == caller.b.host
+//@ callsite field:credsFn(h)
+//@   prop C11
+//@   name credsFn/bearer
+//@   in ~/internal/auth
+//@   infunc bearerHandler\)\.
+//@   requires own-host-only: h == caller.b.host
+//@ callsite field:credsFn(h)
+//@   prop C11
+//@   name credsFn/jwthub
+//@   in ~/internal/auth
+//@   infunc jwtHubHandler\)\.
+//@   requires own-host-only: h == caller.j.host
+//@ callsite elem:hbs(client, clientID, host, credsFn, slog)
+//@   prop C11
+//@   name handler-builder/HandleResponse
+//@   in ~/internal/auth
+//@   infunc \)\.HandleResponse$
+//@   requires built-for-the-challenging-host: host == old(caller.resp.Request.URL.Host)
+//@   requires with-this-auths-credentials: credsFn == caller.a.credsFn
+//@ func NewBasicHandler(client, clientID, host, credsFn, slog) (h)
+//@   prop C11
+//@   ensures bound-to-host: $dyntype(h, *basicHandler) && $unbox(h, *basicHandler).host == host && $unbox(h, *basicHandler).credsFn == credsFn
+//@ func NewBearerHandler(client, clientID, host, credsFn, slog) (h)
+//@   prop C11
+//@   ensures bound-to-host: $dyntype(h, *bearerHandler) && $unbox(h, *bearerHandler).host == host && $unbox(h, *bearerHandler).credsFn == credsFn
+//@ func NewJWTHubHandler(client, clientID, host, credsFn, slog) (h)
+//@   prop C11
+//@   ensures bound-to-host: h == nil || ($dyntype(h, *jwtHubHandler) && $unbox(h, *jwtHubHandler).host == host && $unbox(h, *jwtHubHandler).credsFn == credsFn)
+//@ callsite (~/internal/auth.handler).GenerateAuth()
+//@   prop C11
+//@   name GenerateAuth/UpdateRequest
+//@   in ~/internal/auth
+//@   infunc \)\.UpdateRequest$
+//@   requires handler-of-the-request-host: recv == caller.a.hs[caller.host][caller.at] && caller.host == old(caller.req.URL.Host)
+//@ callsite (net/http.Header).Set(key, value)
+//@   prop C11
+//@   name Header.Set/UpdateRequest
+//@   in ~/internal/auth
+//@   infunc \)\.UpdateRequest$
+//@   requires only-the-handlers-value: key == "Authorization" && value == caller.ah && recv == caller.req.Header
